@@ -2,7 +2,8 @@
 from vlib import core
 
 ASSUME = [
-    "single bunch at bucket 0 (the Parseval relation is per profile; a train couples bunches through the wake)",
+    "Parseval part: one bunch (the relation is per profile; a train couples bunches through the wake), in a third of the cases sitting in bucket 1-3 instead of 0; the wake is requested before the spectrum in half of the cases",
+    "train part: 2-5 bunches in a radiation field as main() builds it (no spacing): spectrum_b = dq^2*cutoff*Re Z*|F_b|^2 with the oracle's own DFT of bunch b alone (2e-5 of the maximum), power_b = delta_f * sum of that spectrum",
     "|P/(df*dq^2) - 1/2 sum rho*W_raw| <= 1/2|Re Z0||F0|^2 + |Re Z_top||F_top|^2 + (1e-5 + N*2^-24/4)*(sum Re Z|F|^2 + max|W|*sum|rho|) (single-precision FFT and float accumulation over N terms), the two exempted terms computed by the oracle's own DFT; two thirds of the cases have Z0 = Z_top = 0 so that the relation must hold without exemption",
     "passive impedances: the four models of the repository and random ones with Re Z >= 0",
 ]
@@ -15,5 +16,7 @@ def run(ctx):
     xdg = core.warm_wisdom(ctx, "c06")
     core.run_harness(ctx, "c06", 40000 if th else 1920, args=["--mode", "c07"], xdg=xdg)
     core.run_harness(ctx, "c06", 3000 if th else 192, variant="asan", args=["--mode", "c07"], xdg=xdg)
-    ctx.min_events = {"fields_checked": 1000, "cutoff_cases": 50, "model.freespace": 30,
+    core.run_harness(ctx, "c06", 12000 if th else 640, args=["--mode", "c07mb"], xdg=xdg)
+    core.run_harness(ctx, "c06", 600 if th else 64, variant="asan", args=["--mode", "c07mb"], xdg=xdg)
+    ctx.min_events = {"bunch_spectra_checked": 1500, "wake_requested_before_spectrum": 300, "fields_checked": 1000, "cutoff_cases": 50, "model.freespace": 30,
                       "model.parallelplates": 30, "model.resistivewall": 30, "model.collimator": 30}
